@@ -53,6 +53,10 @@ CHECKS = {
    technique="TLA+ specs NodeHeights.tla (Leibniz-expanded Jacobian determinant = closed form, exact) and Transforms.tla (composition rule for diagonal / cumulative patterns) model-checked with TLC; emitted exact determinants and the rule compared with the real transforms' log_abs_det_jacobian, inverse, model call and TransformedParameter call; autodiff Jacobian as the property's yardstick; validated transliteration for random trees of 5-12 taxa",
    text="For every emitted tree case the reported log-Jacobian and ReparameterizedTimeTreeModel() must be the log of the exact determinant (1e-12), single, batched, after parameter updates and after in-place updates; random heterochronous trees of 5..9 (thorough 12) taxa go through the transliteration validated against TLC; CumSum, CumSumExp, SoftPlus, CumSumSoftPlus, Log, log-rate-difference, Exp, Sigmoid, Affine, StickBreaking are compared at lattice and random points with the autodiff Jacobian (1e-9) and the closed form of the spec's rule, inverse(forward(x)) = x, and TransformedParameter() must return the log-Jacobian of its current value.",
    note="The TLA+ part proves the determinant structure exactly; exp / log / softplus leaves are numeric (autodiff in float64 is the yardstick named by the property). Transforms without both an inverse and a log-Jacobian are listed in the evidence as not invertible as shipped and not judged."),
+ "C08": dict(level="model_checking", design="4/C08",
+   technique="TLA+ spec Coalescent.tla (event bookkeeping of the piecewise-constant coalescents - unstable sort stepped by PickNext, running lineage count, piece index, slicing - against the Kingman definition, exact rationals) model-checked with TLC over all inputs of a lattice and all tie orders; emitted cases replayed into the real distributions in several supplied orders; non-constant demographies against numerical quadrature over a transliterated interval table validated against TLC",
+   text="TLC checks, for every tie order of the sort, that the code's bookkeeping yields the Kingman integral, log terms and per-piece sufficient statistics for constant / skyride / skygrid on 3-4 (thorough 5) taxa with tied and serial sampling times, all valid coalescent time vectors on the grid and grids before the first coalescence, beyond the root and on event times (50k states); emitted cases are evaluated by ConstantCoalescent, PiecewiseConstantCoalescent, PiecewiseConstantCoalescentGrid with node heights permuted, plus sufficient statistics; model equivalences, the scaling law, JSON model classes and batches on random inputs; ExponentialCoalescent, PiecewiseLinearCoalescentGrid and PiecewiseExponentialCoalescentGrid against mpmath quadrature of 1/N(t) for n up to 10 (thorough 50) taxa.",
+   note="Soft (temperature) variants not judged; grid point exactly on a coalescent time: either side accepted; N(t) of the non-constant classes is read from their code/docstrings (piecewise exponential: N(0)=theta, growth per grid piece; piecewise linear: values at 0 and grid points, constant beyond)."),
 }
 
 PENDING = {}
